@@ -213,6 +213,16 @@ def symlist_append(ex, st, ref, x, node=None):
             raise Undecided("append of a non-string to a list of strings")
         st.heap[ref.sid] = SymListData(d.length + 1, d.arr, d.cls, d.owner)
         return
+    from .core import LRef
+    if d.cls is None and isinstance(x, LRef) and isinstance(d.arr.sort().range(), z3.ArraySortRef) and d.arr.sort().range().range() == R \
+            and all(not isinstance(y, (ARef, LRef, StrV)) for y in st.heap[x.sid].items):
+        # a list of short lists of numbers ([x, y] pairs): the entry is the row of those numbers
+        row = z3.K(I, z3.RealVal(0))
+        for c, y in enumerate(st.heap[x.sid].items):
+            from .core import real
+            row = z3.Store(row, c, real(y))
+        st.heap[ref.sid] = SymListData(d.length + 1, z3.Store(d.arr, d.length, row), d.cls, d.owner)
+        return
     if d.cls is None and isinstance(x, ARef):
         # a list of arrays: the entry is the array's content (its length is not kept)
         da = ex.arr(st, x)
